@@ -24,7 +24,7 @@ fn default_runs(prop: &str, tier: &str) -> u64 {
         "C13" => 300000,
         "C15" => 30000,
         "C09" => 30000,
-        "C11" => 15000,
+        "C11" => 30000,
         _ => 40000,
     };
     if tier == "thorough" {
